@@ -14,32 +14,47 @@ TITLE = 'inc and exc partition a table; both keep the columns and the row order'
 STATEMENT = ('inc returns exactly the rows satisfying the condition(s) and exc exactly the others, each in original order; both '
              'carry all columns even when no row survives; inc() is the identity; inc is idempotent; find_<col> returns the '
              'unique value among the selected rows and raises if there is none or more than one')
-LEAN_FILES = ['Basic', 'Cmp', 'Sort', 'TableBasic', 'Table', 'Filter', 'FilterDriver', 'TableLemmas', 'TableRect', 'TableRows',
+LEAN_FILES = ['Basic', 'Cmp', 'Sort', 'TableBasic', 'Table', 'TableAlias', 'TableDriver', 'Filter', 'FilterDriver', 'TableLemmas', 'TableRect', 'TableRows',
               'FilterLemmas', 'C06']
 RULE = ('distinct protocol lines (table, condition) on which the implementation returned a table / value; conditions matching '
         'nothing or everything are counted (they are the extremes the property names), empty tables are not')
 TRUSTED = ['correspondence harness (pv.engine, pv.proto), generators and reference predicate of pv.props.c06',
            'Lean driver parser/printer (PygModel/Basic.lean, TableDriver.lean, FilterDriver.lean)']
-ASSUMPTIONS = ['a compiled regex is a literal alphanumeric pattern: re.search = substring containment (the model\'s infixB)',
-               'python `r in values` is membership under == (Cell.pyEq); NaN inside an admissible-value LIST is identity-dependent and not generated',
-               'is_nan is also true of +-inf (modelled so); infinite cells are not generated',
+ASSUMPTIONS = ['the theorems hold for ANY regex semantics String -> Bool; the driver instantiates it with RePat.search (literal characters, ".", "^", "$", re.I) '
+               '- that this is what re.search does is sampled; other regex syntax is checked by the laws only (python re is the reference there)',
+               'membership in a list of admissible values is BY VALUE (python ==, NaN the same value as NaN whichever object holds it): Cell.valEq',
+               'the NaN condition is true of NaN cells only; +-inf are ordinary float values',
                'callables are drawn from a fixed menu implemented on both sides',
                'column order of results is not modelled (tables are compared as dicts)']
 EXTRA = {}
 
 NAMES = ['a', 'b', 'c']
-VALUES = [None, None, 0, 1, 2, 3, -1, 1.0, 2.5, -0.25, 'x', 'y', 'xy', 'yx', 'abc', '', 'x1']
-PATTERNS = ['x', 'y', 'xy', 'b', '1', '', 'zz', 'abc']
+INF = float('inf')
+VALUES = [None, None, 0, 1, 2, 3, -1, 1.0, 2.5, -0.25, 'x', 'y', 'xy', 'yx', 'abc', '', 'x1', 'Xy', 'aXc']
+PATTERNS = ['x', 'y', 'xy', 'b', '1', '', 'zz', 'abc', '^x', 'y$', '^xy$', 'a.c', '.', '^.$', 'x.', '^', '$', '..', '^y', 'x$']
 
 
-def cell(rng, nan=0.12):
-    if rng.random() < nan:
-        return float('nan') if rng.random() < 0.7 else np.nan
+def a_nan(rng):
+    """a NaN cell: a fresh float('nan') object, or THE np.nan object (identity matters to `in` / set())"""
+    return float('nan') if rng.random() < 0.5 else np.nan
+
+
+def cell(rng, nan=0.12, inf=0.05):
+    r = rng.random()
+    if r < nan:
+        return a_nan(rng)
+    if r < nan + inf:
+        return INF if rng.random() < 0.6 else -INF
     return rng.choice(VALUES)
 
 
 def is_nan(x):
     return isinstance(x, float) and x != x
+
+
+def same_val(x, y):
+    """equality of two cells as values: python ==, NaN the same value as NaN"""
+    return (is_nan(x) and is_nan(y)) or x == y
 
 
 def table(rng):
@@ -54,7 +69,23 @@ def table(rng):
     return t
 
 
-# a condition is ('none',) | ('nan',) | ('re', pat) | ('in', [values]) | ('eq', value)
+def re_variant(rng, v):
+    """a pattern of the modelled syntax that matches the string v (alphanumeric, non-empty)"""
+    i = rng.randrange(len(v))
+    j = min(len(v), i + rng.choice([1, 2, 3]))
+    body = ''.join('.' if rng.random() < 0.2 else ch for ch in v[i:j])
+    flags = 0
+    if rng.random() < 0.2:
+        body = body.swapcase()
+        flags = re.I
+    if i == 0 and rng.random() < 0.4:
+        body = '^' + body
+    if j == len(v) and rng.random() < 0.4:
+        body = body + '$'
+    return ('re', body, flags)
+
+
+# a condition is ('none',) | ('nan', obj) | ('re', pat, flags) | ('in', [values]) | ('eq', value)
 def cond(rng, col):
     vals = [v for v in col if not is_nan(v) and v is not None]
     if col and rng.random() < 0.65:
@@ -63,11 +94,15 @@ def cond(rng, col):
         if v is None:
             return ('none',) if rng.random() < 0.7 else ('in', [None, rng.choice(VALUES)])
         if is_nan(v):
-            return ('nan',)
+            if rng.random() < 0.5:
+                return ('nan', a_nan(rng))
+            # NaN among the admissible values of a list (some NaN OBJECT, not necessarily the cell's)
+            vs = [a_nan(rng)] + [rng.choice(vals + [None, 99, 'q']) for _ in range(rng.choice([0, 1, 2]))]
+            rng.shuffle(vs)
+            return ('in', vs if rng.random() < 0.8 else tuple(vs))
         q = rng.random()
         if isinstance(v, str) and v.isalnum() and q < 0.45:
-            i = rng.randrange(len(v))
-            return ('re', v[i:i + rng.choice([1, 2, 3])])
+            return re_variant(rng, v)
         if q < 0.7:
             if isinstance(v, int) and rng.random() < 0.3:
                 v = float(v)      # 1 == 1.0
@@ -79,18 +114,20 @@ def cond(rng, col):
     if r < 0.14:
         return ('none',)
     if r < 0.26:
-        return ('nan',)
+        return ('nan', a_nan(rng))
     if r < 0.40:
-        return ('re', rng.choice(PATTERNS))
+        return ('re', rng.choice(PATTERNS), re.I if rng.random() < 0.15 else 0)
     if r < 0.62:
-        return ('eq', rng.choice([v for v in VALUES if v is not None] + [99, 'q']))
+        return ('eq', rng.choice([v for v in VALUES if v is not None] + [99, 'q', INF, -INF, True, False]))      # True == 1, False == 0
     q = rng.random()
     if q < 0.2:
         return ('in', [])
-    pool = vals + [None, 99, 'q'] + [v for v in VALUES if v is not None]
+    pool = vals + [None, 99, 'q', INF, -INF, True, False] + [v for v in VALUES if v is not None]
     vs = [rng.choice(pool) for _ in range(rng.choice([1, 2, 3]))]
     if q < 0.5:
         vs = list(dict.fromkeys([v for v in col if not is_nan(v)]))      # every non-NaN value: matches all but NaN rows
+    if rng.random() < 0.2:
+        vs.insert(rng.randrange(len(vs) + 1), a_nan(rng))
     return ('in', vs if rng.random() < 0.8 else tuple(vs))
 
 
@@ -98,9 +135,9 @@ def cond_wire(c):
     if c[0] == 'none':
         return 'N'
     if c[0] == 'nan':
-        return 'F:nan'
+        return enc(c[1])
     if c[0] == 're':
-        return '(re %s)' % enc(c[1])
+        return '(re %s%s)' % (enc(c[1]), ' I' if c[2] else '')
     return enc(c[1])
 
 
@@ -108,22 +145,23 @@ def cond_py(c):
     if c[0] == 'none':
         return None
     if c[0] == 'nan':
-        return float('nan')
+        return c[1]
     if c[0] == 're':
-        return re.compile(c[1])
+        return re.compile(c[1], c[2])
     return c[1]
 
 
 def holds(c, v):
-    """the reference meaning of a column condition (the property statement's reading)"""
+    """the reference meaning of a column condition (the property statement's reading): None / NaN / the regex finds
+    something in the string / the cell is one of the admissible VALUES (==, NaN being the value NaN)"""
     if c[0] == 'none':
         return v is None
     if c[0] == 'nan':
         return is_nan(v)
     if c[0] == 're':
-        return isinstance(v, str) and c[1] in v
+        return isinstance(v, str) and re.search(c[1], v, c[2]) is not None
     vs = list(c[1]) if isinstance(c[1], (list, tuple)) else [c[1]]
-    return (not is_nan(v)) and any((not is_nan(x)) and x == v for x in vs)
+    return any(same_val(x, v) for x in vs)
 
 
 PREDS = {
@@ -208,9 +246,8 @@ def lines_of(rng, sc):
     tw = enc(t)
     tail = '%s %s %s' % (pred_wire(p), kvw(kw), kvw(dc) if dc is not None else 'N')
     out = ['(flt inc %s %s)' % (tw, tail), '(flt exc %s %s)' % (tw, tail)]
-    findable = [c for c in t if not any(is_nan(v) for v in t[c])]
-    if findable and rng.random() < 0.5:
-        out.append('(flt find %s %s %s)' % (tw, enc(rng.choice(findable)), tail))
+    if t and rng.random() < 0.5:
+        out.append('(flt find %s %s %s)' % (tw, enc(rng.choice(list(t))), tail))
     elif rng.random() < 0.04:
         out.append('(flt find %s %s %s)' % (tw, enc('q'), tail))      # find_<col> of a column that is not there: KeyError
     return out
@@ -259,7 +296,8 @@ def _conds(x):
     out = {}
     for kv in x[1:]:
         v = kv[1]
-        out[proto.unhex(kv[0])] = re.compile(proto.dec(v[1])) if isinstance(v, list) and v and v[0] == 're' else proto.dec(v)
+        out[proto.unhex(kv[0])] = (re.compile(proto.dec(v[1]), re.I if len(v) > 2 else 0)
+                                   if isinstance(v, list) and v and v[0] == 're' else proto.dec(v))
     return out
 
 
@@ -303,13 +341,59 @@ def run_line(state, sx):
 
 
 def compare(case, i, line, ir, mr):
-    if proto.same_reply(ir, mr):
+    # type-strict (1 is not 1.0): filtering must hand the cells through unchanged, and find_ returns the FIRST selected
+    # of several equal values (set() keeps the first inserted of == elements)
+    if proto.same_reply(ir, mr, numeric=False):
         return None
+    if proto.same_reply(ir, mr):
+        return ('divergence', 'equal values of different type: implementation %s, model %s' % (ir[:200], mr[:200]))
     if mr == 'bad-op' or ir == 'bad-op':
         return ('divergence', 'outside the modelled universe: implementation %s, model %s' % (ir[:200], mr[:200]))
     if ir.startswith('err') and mr.startswith('err'):
         return ('divergence', 'both raise, kinds differ: implementation %s, model %s' % (ir, mr))
     return 'implementation %s, model %s' % (ir[:300], mr[:300])
+
+
+def shrink(case, still_fails, budget=250):
+    """delta debugging that keeps the table rectangular: drop one row (from every column), one column, one condition or
+    one admissible value at a time"""
+    if len(case['lines']) != 1:
+        raise ValueError('single-line cases only')
+    best = proto.parse(case['lines'][0])
+
+    def sub(sx):
+        if isinstance(sx, str):
+            return
+        if sx and sx[0] in ('L', 'T', 'D'):
+            for i in range(1, len(sx)):
+                yield sx[:i] + sx[i + 1:]
+        for i in range(len(sx)):
+            for y in sub(sx[i]):
+                yield sx[:i] + [y] + sx[i + 1:]
+
+    def candidates(sx):
+        t = sx[2]
+        n = len(t[1][1]) - 1 if len(t) > 1 else 0
+        for i in range(n):
+            yield sx[:2] + [['D'] + [[kv[0], kv[1][:1 + i] + kv[1][2 + i:]] for kv in t[1:]]] + sx[3:]
+        if len(t) > 2:
+            for j in range(1, len(t)):
+                yield sx[:2] + [t[:j] + t[j + 1:]] + sx[3:]
+        for k in range(3, len(sx)):
+            for y in sub(sx[k]):
+                yield sx[:k] + [y] + sx[k + 1:]
+
+    tries, improved = 0, True
+    while improved and tries < budget:
+        improved = False
+        for cand in candidates(best):
+            tries += 1
+            if tries > budget:
+                break
+            if still_fails(dict(case, lines=[proto.render(cand)])):
+                best, improved = cand, True
+                break
+    return dict(case, lines=[proto.render(best)])
 
 
 def nontrivial(line, reply):
@@ -326,6 +410,22 @@ def same_cell(x, y):
     if is_nan(x) and is_nan(y):
         return True
     return type(x) == type(y) and x == y
+
+
+def renan(x, mode):
+    if not is_nan(x):
+        return x
+    return np.nan if mode == 'shared' else float('nan')
+
+
+def recond(c, mode):
+    if c[0] == 'nan':
+        return ('nan', renan(c[1], mode))
+    if c[0] == 'eq':
+        return ('eq', renan(c[1], mode))
+    if c[0] == 'in':
+        return ('in', type(c[1])(renan(x, mode) for x in c[1]))
+    return c
 
 
 def rows_of(t):
@@ -404,20 +504,18 @@ def laws(rng, tier, ctx):
             continue
         # find_<col>
         for c in t:
-            if any(is_nan(v) for v in t[c]):
-                continue
             count += 1
             sel = [v for v, w in zip(t[c], want) if w]
             distinct = []
             for v in sel:
-                if not any(v == u for u in distinct):
+                if not any(same_val(v, u) for u in distinct):
                     distinct.append(v)
             fcase = dict(tag='law-find:' + tag, lines=['(flt find %s %s %s)' % (tw, enc(c), tail)])
             try:
                 got = do('find', build(), c)
                 if len(distinct) != 1:
                     yield Finding('violation', fcase, 'find_%s returned %r although %d distinct values are selected' % (c, got, len(distinct)))
-                elif not (got == distinct[0]):
+                elif not same_val(got, distinct[0]):
                     yield Finding('violation', fcase, 'find_%s returned %r, the unique selected value is %r' % (c, got, distinct[0]))
             except Timeout:
                 yield Finding('violation', fcase, 'find does not return')
@@ -426,6 +524,38 @@ def laws(rng, tier, ctx):
                     yield Finding('violation', fcase, 'find_%s raised although exactly one value (%r) is selected' % (c, distinct[0]))
             except Exception as e:
                 yield Finding('violation', fcase, 'find_%s raised %s' % (c, type(e).__name__))
+        # the answer must not depend on WHICH OBJECT holds a NaN (np.nan is one shared object, float('nan') a new one
+        # each time): the statement speaks of cells and values
+        if any(is_nan(v) for col in t.values() for v in col) or any(
+                is_nan(x) for c in conds.values() if c[0] in ('in', 'eq', 'nan')
+                for x in (c[1] if isinstance(c[1], (list, tuple)) else [c[1]])):
+            count += 1
+            outs = {}
+            for mode in ('shared', 'fresh'):
+                t2 = {k: [renan(v, mode) for v in col] for k, col in t.items()}
+                kw2 = {k: recond(c, mode) for k, c in kw.items()}
+                dc2 = None if dc is None else {k: recond(c, mode) for k, c in dc.items()}
+                tail2 = '%s %s %s' % (pred_wire(p), kvw(kw2), kvw(dc2) if dc2 is not None else 'N')
+                res = []
+                for op, key in [('inc', None), ('exc', None)] + [('find', c) for c in t2]:
+                    line = '(flt %s %s %s%s)' % (op, enc(t2), enc(key) + ' ' if key else '', tail2)
+                    try:
+                        r = with_timeout(lambda: call(dictable({k: list(v) for k, v in t2.items()}), op, pred_py(p) if p else None,
+                                                      {k: cond_py(c) for k, c in kw2.items()},
+                                                      None if dc2 is None else {k: cond_py(c) for k, c in dc2.items()}, key), 5)
+                        r = ('ok', rows_of(r) if op != 'find' else [(r,)])
+                    except Timeout:
+                        r = ('timeout', [])
+                    except Exception as e:
+                        r = ('err ' + type(e).__name__, [])
+                    res.append((line, r))
+                outs[mode] = res
+            for (l1, r1), (l2, r2) in zip(outs['shared'], outs['fresh']):
+                if r1[0] != r2[0] or not same_rows(r1[1], r2[1]):
+                    yield Finding('violation', dict(tag='law-nan-identity:' + tag, lines=[l1, l2], atomic=True),
+                                  'the result depends on which objects hold the NaNs: with the shared np.nan %s %s, with fresh '
+                                  "float('nan') objects %s %s" % (r1[0], r1[1][:6], r2[0], r2[1][:6]))
+                    break
     from . import c01
     if c01._COV['on']:
         EXTRA['line_coverage'] = c01.coverage_report([(201, 215), (413, 428), (502, 524), (594, 609)])
